@@ -711,7 +711,20 @@ fn main() {
         }
         // panic <binary|unary> <Op> <lclass> <l> [<rclass> <r>]  : does evaluation panic / abort?
         "panic" => {
-            let e = if a[2] == "builtin" {
+            let e = if a[2] == "builtinstr" {
+                // panic builtinstr <name> <string with \u{..} escapes> <int>*: name("...", n, m)
+                let mut text = String::new(); let cs: Vec<char> = a[4].chars().collect(); let mut i = 0;
+                while i < cs.len() {
+                    if cs[i] == '\\' && i + 2 < cs.len() && cs[i + 1] == 'u' && cs[i + 2] == '{' {
+                        let end = (i + 3..cs.len()).find(|&k| cs[k] == '}').unwrap();
+                        let hex: String = cs[i + 3..end].iter().collect();
+                        text.push(char::from_u32(u32::from_str_radix(&hex, 16).unwrap()).unwrap_or('?')); i = end + 1;
+                    } else { text.push(cs[i]); i += 1 }
+                }
+                let mut args = vec![varpulis_core::ast::Arg::Positional(Expr::Str(text))];
+                for x in &a[5..] { args.push(varpulis_core::ast::Arg::Positional(Expr::Int(x.parse().unwrap()))) }
+                Expr::Call { func: Box::new(Expr::Ident(a[3].clone())), args }
+            } else if a[2] == "builtin" {
                 // panic builtin <name> <class> <payload> [<class> <payload>]: the call expression name(arg, ...) on literal arguments
                 let mut args = vec![varpulis_core::ast::Arg::Positional(lit(&a[4], &a[5]).0)];
                 if a.len() >= 8 && a[6] != "Null" || (a.len() >= 8 && ["pow", "min", "max"].contains(&a[3].as_str())) { args.push(varpulis_core::ast::Arg::Positional(lit(&a[6], &a[7]).0)) }
